@@ -151,6 +151,23 @@ theorem dense_sparse_agree (is : List Inter) (kwd kws : List (Char × NsVal))
         = .ok (.dense (if constant is ≠ 0 then constant is :: entries.map (·.2) else entries.map (·.2))) :=
   dense_sparse_agree' is kwd kws hne hd hs hsame
 
+/-- the hypotheses are met by `x=[2,3]` versus `x={'p':2,'q':3}` -/
+example : isSparseCall [('x', NsVal.dense [.num 2, .num 3])] = false
+    ∧ isSparseCall [('x', NsVal.sparse [(.str "p", .num 2), (.str "q", .num 3)])] = true
+    ∧ ∀ c, featsDense [('x', .dense [.num 2, .num 3])] c
+        = (featsSparse [('x', .sparse [(.str "p", .num 2), (.str "q", .num 3)])] c).map (·.2) := by
+  refine ⟨by decide, by decide, ?_⟩
+  intro c
+  by_cases h : 'x' = c
+  · subst h; decide +kernel
+  · simp [featsDense, featsSparse, nsVal, dictGet, h, denseVals, sparseFeats_none]
+
+/-- a worked instance of the whole pipeline: `InteractionsEncoder([1,'xxa','a']).encode(x=[2,3], a={'k':'v', 3:7})` -/
+example : encode Cfg.fixed [.num 1, .term ['x', 'x', 'a'], .term ['a']]
+    [('x', .dense [.num 2, .num 3]), ('a', .sparse [(.str "k", .str "v"), (.int 3, .num 7)])]
+    = .ok (.sparse [("x0x0akv", 4), ("x0x0a3", 28), ("x0x1akv", 6), ("x0x1a3", 42), ("x1x1akv", 9),
+        ("x1x1a3", 63), ("akv", 1), ("a3", 7), ("const", 1)]) := by decide +kernel
+
 /-- scalar, empty, `None` and absent namespaces: the result depends on the keyword arguments
 only through the features of each namespace … -/
 theorem encode_depends_on_features (is : List Inter) (kw kw' : List (Char × NsVal))
